@@ -280,6 +280,57 @@ def check_buffer_pools(ctx, prog, prefix="C15.U4"):
                "leaks into the next", tf.loc)
 
 
+def check_registry_keys(ctx, prog):
+    """U12 (round 11, seed C15-11): a registry is addressed by the name the host gives.  What `add_x(name, ..)` stores under and
+    what `remove_x(name)` removes must be the same function of the name: if one of them passes the name through a function
+    of the crate (a normalisation) and the other does not, an entry can no longer be removed under the spelling it was
+    added with, and two spellings collide - the environment then depends on its history."""
+    ENV = "minijinja::environment::Environment"
+    CONV = ("::into", "::from", "::to_string", "::to_owned", "::borrow", "::as_ref", "::deref", "::clone", "::as_str", "::to_string_lossy")
+
+    def chain(g, op, depth=0):
+        out = set()
+        if depth > 6 or "c" in op:
+            return out
+        for o in flow.origins(g, op):
+            if o.kind == "call":
+                nm = o.call.name
+                if nm.startswith(("minijinja::", "<minijinja::")) and not nm.endswith(CONV):
+                    out.add(nm.rsplit("::", 1)[-1])
+                if o.call.args:
+                    out |= chain(g, o.call.args[0], depth + 1)
+        return out
+    per = {}
+    for k, f in prog.fns.items():
+        if f.crate != "minijinja" or f.kind == "closure" or not k.startswith(ENV + "::"):
+            continue
+        for c in f.calls():
+            last = c.name.rsplit("::", 1)[-1]
+            if last not in ("insert", "remove") or "Map" not in c.name or len(c.args) < 2:
+                continue
+            # which registry: the field of self the receiver comes from (through Arc::make_mut)
+            reg = None
+            for o in flow.origins(f, c.args[0], through_calls=lambda q: 0 if q.name.endswith(("::make_mut", "::deref_mut", "::deref")) else None):
+                if o.kind == "arg" and o.arg == 1 and o.proj:
+                    reg = [x for x in o.proj if not x.startswith("as ")][0]
+            if reg is None:
+                continue
+            per.setdefault(reg, []).append((last, f, c, frozenset(chain(f, c.args[1]))))
+    n = 0
+    for reg, sites in sorted(per.items()):
+        kinds = {k for k, _, _, _ in sites}
+        if kinds != {"insert", "remove"}:
+            continue
+        n += 1
+        chains = {ch for _, _, _, ch in sites}
+        ok = len(chains) == 1
+        f0, c0 = sites[0][1], sites[0][2]
+        ctx.ob("C15.U12.add-and-remove-address-the-same-key", "Environment.%s" % reg, ok,
+               "the key of %s goes through %s" % (reg, {"%s in %s" % (k, f.path.split("::")[-1]): sorted(ch) for k, f, _, ch in sites}),
+               f0.where(c0.bb))
+    return n
+
+
 def run(ctx):
     ctx.explain("C15: ordering rule on fallible mutators (no mutation of self may precede a propagated failure), "
                 "pairing rule for the two template tiers, reviewed-table rule for process-global mutable state, "
@@ -521,6 +572,9 @@ def run(ctx):
     if any(f_.path == "minijinja::vm::state::State::new" for f_ in prog.fns.values()) and prog.adt("minijinja::vm::state::State") and \
             any(fl.get("name") == "id" for v_ in prog.adt("minijinja::vm::state::State").get("variants", []) for fl in v_.get("fields", [])):
         ctx.floor("C15.U10 values stored as a state's id", n10, 1)
+    # ---- U12
+    n12 = check_registry_keys(ctx, ctx.prog)
+    ctx.floor("C15.U12 registries with add and remove", n12, 2)
     # ---- U9
     check_registrations_take_effect(ctx, prog)
     # ---- U4
